@@ -22,6 +22,7 @@ func TestC13(t *testing.T) {
 // its burst; (4) amount > burst is an error, not a 429, and debits nothing.
 func c13prop(r *simkit.Run) {
 	rt := r.T
+	guardRun = r
 	maxAvg := int64(rapid.SampledFrom([]int{2, 5, 20, 200}).Draw(rt, "avg-scale"))
 	rates := drawRates(rt, true, maxAvg)
 	drawRateSource(rt)
